@@ -46,6 +46,8 @@ struct LoopInfo {
     a: Option<(usize, usize)>,
     b: Option<(usize, usize)>,
     label: Option<String>,
+    binds: Vec<String>,
+    by_ref: bool,
 }
 
 struct MacroInfo {
@@ -68,6 +70,30 @@ struct FnInfo {
     loops: Vec<LoopInfo>,
     macros: Vec<MacroInfo>,
     has_self: bool,
+    ret: Option<(usize, usize)>,
+}
+
+struct BindVisitor {
+    names: Vec<String>,
+    by_ref: bool,
+}
+impl<'ast> Visit<'ast> for BindVisitor {
+    fn visit_pat_ident(&mut self, p: &'ast syn::PatIdent) {
+        // an identifier pattern starting with an uppercase letter is a constant / unit variant path
+        let n = p.ident.to_string();
+        if n.chars().next().map_or(false, |c| c.is_lowercase() || c == '_') {
+            self.names.push(n);
+        }
+        if p.by_ref.is_some() {
+            self.by_ref = true;
+        }
+        syn::visit::visit_pat_ident(self, p);
+    }
+}
+fn binds_of(p: &syn::Pat) -> (Vec<String>, bool) {
+    let mut b = BindVisitor { names: vec![], by_ref: false };
+    b.visit_pat(p);
+    (b.names, b.by_ref)
 }
 
 struct BodyVisitor<'a> {
@@ -86,9 +112,12 @@ impl<'ast, 'a> Visit<'ast> for BodyVisitor<'a> {
         let (s, e) = br(w.span());
         let (bo, bc) = block_braces(&w.body);
         let label = w.label.as_ref().map(|l| l.name.ident.to_string());
-        let (kind, a, b) = match &*w.cond {
-            syn::Expr::Let(l) => ("while_let", Some(br(l.pat.span())), Some(br(l.expr.span()))),
-            c => ("while", Some(br(c.span())), None),
+        let (kind, a, b, binds, by_ref) = match &*w.cond {
+            syn::Expr::Let(l) => {
+                let (n, r) = binds_of(&l.pat);
+                ("while_let", Some(br(l.pat.span())), Some(br(l.expr.span())), n, r)
+            }
+            c => ("while", Some(br(c.span())), None, vec![], false),
         };
         self.loops.push(LoopInfo {
             kind,
@@ -101,6 +130,8 @@ impl<'ast, 'a> Visit<'ast> for BodyVisitor<'a> {
             a,
             b,
             label,
+            binds,
+            by_ref,
         });
         self.depth += 1;
         syn::visit::visit_expr_while(self, w);
@@ -121,6 +152,8 @@ impl<'ast, 'a> Visit<'ast> for BodyVisitor<'a> {
             a: None,
             b: None,
             label,
+            binds: vec![],
+            by_ref: false,
         });
         self.depth += 1;
         syn::visit::visit_expr_loop(self, w);
@@ -141,6 +174,8 @@ impl<'ast, 'a> Visit<'ast> for BodyVisitor<'a> {
             a: Some(br(w.pat.span())),
             b: Some(br(w.expr.span())),
             label,
+            binds: binds_of(&w.pat).0,
+            by_ref: false,
         });
         self.depth += 1;
         syn::visit::visit_expr_for_loop(self, w);
@@ -244,6 +279,10 @@ impl FileVisitor {
             loops,
             macros,
             has_self,
+            ret: match &sig.output {
+                syn::ReturnType::Default => None,
+                syn::ReturnType::Type(_, t) => Some(br(t.span())),
+            },
         });
     }
 }
@@ -332,7 +371,7 @@ fn main() {
         }
         let _ = write!(
             out,
-            "\n{{\"path\":\"{}\",\"kind\":\"{}\",\"trait\":{},\"start\":{},\"end\":{},\"sig_start\":{},\"body_open\":{},\"body_close\":{},\"line\":{},\"end_line\":{},\"has_self\":{},\"loops\":[",
+            "\n{{\"path\":\"{}\",\"kind\":\"{}\",\"trait\":{},\"start\":{},\"end\":{},\"sig_start\":{},\"body_open\":{},\"body_close\":{},\"line\":{},\"end_line\":{},\"has_self\":{},\"ret\":{},\"loops\":[",
             esc(&f.path),
             f.kind,
             match &f.trait_ {
@@ -346,7 +385,8 @@ fn main() {
             f.body_close,
             f.line,
             f.end_line,
-            f.has_self
+            f.has_self,
+            opt_span(&f.ret)
         );
         for (j, l) in f.loops.iter().enumerate() {
             if j > 0 {
@@ -354,7 +394,7 @@ fn main() {
             }
             let _ = write!(
                 out,
-                "{{\"kind\":\"{}\",\"start\":{},\"end\":{},\"body_open\":{},\"body_close\":{},\"line\":{},\"depth\":{},\"a\":{},\"b\":{},\"label\":{}}}",
+                "{{\"kind\":\"{}\",\"start\":{},\"end\":{},\"body_open\":{},\"body_close\":{},\"line\":{},\"depth\":{},\"a\":{},\"b\":{},\"label\":{},\"binds\":[{}],\"by_ref\":{}}}",
                 l.kind,
                 l.start,
                 l.end,
@@ -367,7 +407,9 @@ fn main() {
                 match &l.label {
                     Some(s) => format!("\"{}\"", esc(s)),
                     None => "null".into(),
-                }
+                },
+                l.binds.iter().map(|b| format!("\"{}\"", esc(b))).collect::<Vec<_>>().join(","),
+                l.by_ref
             );
         }
         out.push_str("],\"macros\":[");
